@@ -213,6 +213,105 @@ fn c01_indent_huge_width() {
 // (A twin harness for filters::slice with count >= 2^60 was tried: building the State and iterating the value
 // does not finish in 900 s; the reservation was repaired instead, see DESIGN.md section C.)
 
+
+// ---------------------------------------------------------------------------
+// C16 (narrow): whatever JSON text the serializer produces, `tojson` hands out a safe string that contains
+// none of < > & ' and from which the serializer's text is recovered by undoing the four \u00XX escapes.
+// The serializer itself (serde_json + `Serialize for Value`, whose thread-locals kani-compiler 0.68 cannot
+// translate) is replaced by a model that returns an ARBITRARY ASCII text of up to 3 bytes.
+// ---------------------------------------------------------------------------
+#[cfg(feature = "json")]
+pub(crate) static mut C16_JSON: [u8; 3] = [0; 3];
+#[cfg(feature = "json")]
+pub(crate) static mut C16_JSON_LEN: usize = 0;
+
+#[cfg(feature = "json")]
+pub(crate) fn serialize_json_model<F>(_value: &Value, formatter: F) -> serde_json::Result<String>
+where
+    F: serde_json::ser::Formatter,
+{
+    core::mem::forget(formatter);
+    let s = unsafe { core::str::from_utf8_unchecked(&C16_JSON[..C16_JSON_LEN]) };
+    Ok(s.to_string())
+}
+
+#[cfg(feature = "json")]
+fn is_html_meta(b: u8) -> bool {
+    b == b'<' || b == b'>' || b == b'&' || b == b'\''
+}
+
+#[cfg(feature = "json")]
+// @verif props=C16 tier=quick cap=900 group=json fns=filters::tojson stubs=serialize_json->arbitrary_text
+/// For EVERY serializer output of up to 3 ASCII bytes: the value `tojson` returns is marked safe, contains none
+/// of the characters < > & ', and is the serializer's text with exactly those four characters replaced by
+/// their six-byte \u00XX escapes (every other byte unchanged, in order).
+#[kani::proof]
+#[kani::unwind(22)]
+#[kani::stub(std::hash::RandomState::new, crate::verif_common::random_state_stub)]
+#[kani::stub(alloc::fmt::format, crate::verif_common::format_stub)]
+#[kani::stub(crate::filters::builtins::serialize_json, serialize_json_model)]
+fn c16_tojson_output_is_html_safe() {
+    let len: usize = kani::any();
+    kani::assume(len <= 3);
+    let mut i = 0;
+    let mut metas = 0;
+    while i < 3 {
+        let c: u8 = kani::any();
+        kani::assume(c < 0x80);
+        unsafe {
+            C16_JSON[i] = c;
+        }
+        if i < len && is_html_meta(c) {
+            metas += 1;
+        }
+        i += 1;
+    }
+    unsafe {
+        C16_JSON_LEN = len;
+    }
+    let kwargs: crate::value::Kwargs = std::iter::empty::<(String, Value)>().collect();
+    let v = Value::from(1);
+    let r = tojson(&v, Some(Value::from(false)), kwargs);
+    match r {
+        Ok(ref out) => {
+            assert!(out.is_safe());
+            let s = out.as_str().unwrap().as_bytes();
+            assert!(s.len() == len + 5 * metas);
+            // walk both texts
+            let mut j = 0; // position in the output
+            let mut k = 0; // position in the serializer's text
+            while k < len {
+                let c = unsafe { C16_JSON[k] };
+                if is_html_meta(c) {
+                    assert!(s[j] == b'\\' && s[j + 1] == b'u' && s[j + 2] == b'0' && s[j + 3] == b'0');
+                    let hex = [s[j + 4], s[j + 5]];
+                    let want: [u8; 2] = match c {
+                        b'<' => *b"3c",
+                        b'>' => *b"3e",
+                        b'&' => *b"26",
+                        _ => *b"27",
+                    };
+                    assert!(hex[0] == want[0] && hex[1] == want[1]);
+                    j += 6;
+                } else {
+                    assert!(s[j] == c);
+                    j += 1;
+                }
+                k += 1;
+            }
+            let mut q = 0;
+            while q < s.len() {
+                assert!(!is_html_meta(s[q]));
+                q += 1;
+            }
+        }
+        Err(_) => assert!(false),
+    }
+    kani::cover!(len == 3 && metas == 3);
+    kani::cover!(len == 3 && metas == 0);
+    core::mem::forget(r);
+}
+
 #[cfg(test)]
 mod playback {
     use super::*;
